@@ -146,7 +146,7 @@ func Verif_C22_FixedWidth() {
 	c22Eq(d1, data, "AddBytes recovered by ReadBytes")
 	c22Eq(d2, data, "AddBytes recovered by CopyBytes")
 	verifrt.Assert(s.Empty(), "nothing left over")
-	verifrt.Reach("done")
+	verifrt.Reach("fixedwidth-done")
 }
 
 // c22Nested runs one three-level template; k1..k3 are the prefix kinds per level, n the length
@@ -199,7 +199,7 @@ func c22Nested(k1, k2, k3, n, variant int) {
 	verifrt.Assert(d.Empty(), "level 2: nothing left over")
 	verifrt.Assert(ra == a && rx == x && ry == y&0xffffff && rw == w && rz == z&0xffffffffffff && rq == q, "nested values recovered")
 	c22Eq(e, data, "innermost bytes recovered")
-	verifrt.Reach("done")
+	verifrt.Reach("nested-done")
 }
 
 // Verif_C22_Nested: all 5x5x5 prefix-kind combinations at depth 3, innermost length 0..3,
@@ -258,7 +258,7 @@ func c22Promote(kp, n int) {
 	verifrt.Assert(c.ReadUint8(&ra) && c.ReadASN1(&d, t) && c.ReadUint16(&rz) && c.Empty(), "promotion: child reads")
 	verifrt.Assert(ra == a && rz == z, "promotion: siblings recovered")
 	c22Eq(d, data, "promotion: content recovered")
-	verifrt.Reach("done")
+	verifrt.Reach("promote-done")
 }
 
 var c22PromoteLens = []int{0, 1, 121, 122, 123, 124, 125, 126, 127, 128, 129, 249, 250, 251, 252, 253, 254, 255, 256, 257, 300}
@@ -306,7 +306,7 @@ func Verif_C22_Overflow8() {
 	verifrt.Assert((err != nil) == expectErr, "8-bit prefix: error iff content exceeds 255 bytes")
 	if err != nil {
 		verifrt.Assert(out == nil, "error => nil result")
-		verifrt.Reach("overflow")
+		verifrt.Reach("overflow8")
 		return
 	}
 	s := String(out)
@@ -324,7 +324,61 @@ func Verif_C22_Overflow8() {
 	}
 	verifrt.Assert(s.ReadUint8(&rx) && rx == x && s.Empty(), "trailing byte, nothing left over")
 	c22Eq(d, data, "content recovered")
-	verifrt.Reach("fits")
+	verifrt.Reach("fits8")
+}
+
+// Verif_C22_Overflow16: the 2^16 threshold with a child of 65534..65537 bytes (concrete zero
+// filler, first and last two bytes symbolic): a 16-bit prefixed child errs iff it exceeds 65535
+// bytes; an ASN.1 child switches from the 0x82 to the 0x83 length form at 65536, content shifted
+// by 2 resp. 3; a 24-bit prefix takes them all. The 2^24 and 2^32 thresholds need 16 MiB / 4 GiB
+// children and are outside the claim.
+func Verif_C22_Overflow16() {
+	n := 65534 + verifrt.Choose(0, 3)
+	kind := 1 + verifrt.Choose(0, 2)
+	if kind == 3 {
+		kind = 4
+	}
+	data := make([]byte, n)
+	verifrt.Fill(data[:2])
+	verifrt.Fill(data[n-2:])
+	x := verifrt.U8()
+	t := c22Tag()
+	var b Builder
+	c22Node(&b, kind, t, func(c *Builder) { c.AddBytes(data) })
+	b.AddUint8(x)
+	out, err := b.Bytes()
+	verifrt.Assert((err != nil) == (kind == 1 && n > 65535), "16-bit prefix: error iff content exceeds 65535 bytes")
+	if err != nil {
+		verifrt.Reach("overflow16")
+		return
+	}
+	h := c22HdrLen(kind, n)
+	verifrt.Assert(len(out) == h+n+1, "2^16: output size")
+	if len(out) != h+n+1 {
+		return
+	}
+	switch kind {
+	case 1:
+		verifrt.Assert(int(out[0])<<8|int(out[1]) == n, "16-bit prefix value")
+	case 2:
+		verifrt.Assert(int(out[0])<<16|int(out[1])<<8|int(out[2]) == n, "24-bit prefix value")
+	case 4:
+		if n < 65536 {
+			verifrt.Assert(out[0] == byte(t) && out[1] == 0x82 && int(out[2])<<8|int(out[3]) == n, "long form 0x82")
+		} else {
+			verifrt.Assert(out[0] == byte(t) && out[1] == 0x83 && int(out[2])<<16|int(out[3])<<8|int(out[4]) == n, "long form 0x83")
+		}
+	}
+	verifrt.Assert(out[h] == data[0] && out[h+1] == data[1] && out[h+n-2] == data[n-2] && out[h+n-1] == data[n-1] && out[h+n] == x, "2^16: content in place")
+	s := String(out)
+	var c String
+	var rx uint8
+	verifrt.Assert(c22ReadNode(&s, kind, t, &c) && s.ReadUint8(&rx) && s.Empty() && rx == x, "2^16: parse back")
+	verifrt.Assert(len(c) == n, "2^16: content length recovered")
+	if len(c) == n {
+		verifrt.Assert(c[0] == data[0] && c[1] == data[1] && c[n-2] == data[n-2] && c[n-1] == data[n-1], "2^16: content recovered")
+	}
+	verifrt.Reach("fits16")
 }
 
 // Verif_C22_Unwrite: Unwrite(n) for every int n (symbolic) after k bytes were written in the
@@ -356,7 +410,7 @@ func Verif_C22_Unwrite() {
 	})
 	verifrt.Assert(panicked == (n < 0 || n > k), "Unwrite panics iff n<0 or n exceeds the bytes written in the current child")
 	if panicked {
-		verifrt.Reach("panic")
+		verifrt.Reach("unwrite-panic")
 		return
 	}
 	verifrt.Assert(err == nil, "Unwrite: no error")
@@ -373,7 +427,7 @@ func Verif_C22_Unwrite() {
 	if len(rest) == k-n {
 		c22Eq(rest, data[:k-n], "remaining bytes are the first k-n written")
 	}
-	verifrt.Reach("ok")
+	verifrt.Reach("unwrite-ok")
 }
 
 type c22Val struct {
@@ -535,7 +589,7 @@ func c22Fixed(cp, p, kind, n int, trail bool, scenario int) {
 	verifrt.Assert((err != nil) == (total > cp), "fixed builder: error iff capacity exceeded")
 	if err != nil {
 		verifrt.Assert(out == nil, "error => nil result")
-		verifrt.Reach("exceeded")
+		verifrt.Reach("fixed-exceeded")
 		return
 	}
 	verifrt.Assert(len(out) == total, "fixed builder: output size")
@@ -558,7 +612,7 @@ func c22Fixed(cp, p, kind, n int, trail bool, scenario int) {
 	z := verifrt.U8()
 	buf[total-1] = z
 	verifrt.Assert(out[total-1] == z, "fixed builder: result aliases the caller's buffer (store visible)")
-	verifrt.Reach("fits")
+	verifrt.Reach("fixed-fits")
 }
 
 // Verif_C22_FixedBuilder: capacity 0..9, initial contents 0..1, all five child kinds, content
